@@ -62,8 +62,11 @@ def run(ctx, rep):
     rep.rule('R2', 'mutating effects of the remover stay on its argument / listed entries; delete_layer stays inside the layer')
     rep.rule('R3', 'delete_layer removes DIR, TOML and every SBOM format file')
     rep.not_decided = ['TOCTOU races between the type test and the operation', 'kernel symlink semantics']
+    from . import layer_roles
+    ROLES = layer_roles.roles(prog, sl)
+    LayerPaths.sbom_path_fn = ROLES['SBOM_PATH'] or LayerPaths.sbom_path_fn
     E = Effects(prog, sl)
-    dl = prog.fn('libcnb::layer::shared::delete_layer')
+    dl = prog.fn(ROLES['DELETE'] or 'libcnb::layer::shared::delete_layer')
     reach = prog.reach([dl])
     callers = prog.callers()
     n_follow = 0
@@ -109,7 +112,7 @@ def run(ctx, rep):
     rep.floor('R1', 'following_ops', n_follow)
 
     # ---- R1b / R2 on the recursive remover --------------------------------------------------------
-    rm = prog.fn('libcnb::util::remove_dir_recursively')
+    rm = prog.fn(ROLES['REMOVER'] or 'libcnb::util::remove_dir_recursively')
     rep.analysed(rm)
     is_dirparam = lambda v: v[0] == 'param' and v[1] == rm.path and v[2] == 0
     LP = LayerPaths(lambda v: False, lambda v: False, (is_dirparam,))
